@@ -245,6 +245,13 @@ class DRYRule(BaseLintRule):  # pylint: disable=too-many-instance-attributes
         self._helpers.inline_ignore.clear()
         self._constants = []
         self._file_contents = {}
+        # Reset cross-file state so a reused rule object starts its next run empty
+        self._storage.close()
+        self._storage = None
+        self._file_analyzer = None
+        self._config = None
+        self._project_root = None
+        self._initialized = False
         return violations
 
 
